@@ -611,6 +611,10 @@ def inverse_fallbacks(ctx):
     rep = ctx.rep
     mp.mp.dps = 60
     mags = ['1e-8', '1e-3', '0.3', '0.6', '0.7', '0.9', '1', '1.1', '1.4', '1.6', '2', '10', '1e3', '1e8']
+    if ctx.tier == 'thorough':
+        # a denser grid: more magnitudes, and points hugging the crossovers and the unit circle from both sides
+        mags += ['1e-30', '1e-5', '0.05', '0.5', '0.64', '0.6417', '0.65', '0.99', '1.01', '1.49', '1.5', '1.51', '3', '7', '100', '1e5', '1e30']
+        mp.mp.dps = 160      # 1 + 1e-60 must not round to 1 when a path subtracts nearly equal terms
     axis = [mp.mpf(0)] + [mp.mpf(m) for m in mags] + [-mp.mpf(m) for m in mags]
     table = {
         'a_complex_asin_': (mp.asin, lambda xv, yv: yv == 0 and abs(xv) > 1),
